@@ -23,6 +23,24 @@ struct Routed {
 };
 
 // ---------------------------------------------------------------- C03
+// An orthogonal end point lying exactly on a side of a shape's routing box (bounding box grown by the buffer distance),
+// strictly between its corners, is outside the shape; an obstacle-free path from it exists if one exists from the point
+// one unit further out and the step itself stays out of every routing box.  Other near-shape positions: not judged.
+bool stepOut(const std::vector<Poly> &seen, double buf, const P &p, P &out, bool &onSide) {
+    out = p; onSide = false;
+    for (auto &sh : seen) {
+        Box b = bbox(sh); double x0 = b.x0 - buf, x1 = b.x1 + buf, y0 = b.y0 - buf, y1 = b.y1 + buf;
+        if (p.x < x0 || p.x > x1 || p.y < y0 || p.y > y1) continue;
+        if (onSide) return false;                     // on two boxes at once
+        if (p.x == x0 && p.y > y0 && p.y < y1) out.x -= 1; else if (p.x == x1 && p.y > y0 && p.y < y1) out.x += 1;
+        else if (p.y == y0 && p.x > x0 && p.x < x1) out.y -= 1; else if (p.y == y1 && p.x > x0 && p.x < x1) out.y += 1;
+        else return false;
+        onSide = true;
+    }
+    if (!onSide) return true;
+    for (auto &sh : seen) { Box b = bbox(sh); if (segEntersConvex(p, out, rectPoly(b.x0 - buf, b.y0 - buf, b.x1 + buf, b.y1 + buf), 1e-9)) return false; }
+    return true;
+}
 Verdict eval_c03(const Scene &s) {
     Verdict v;
     Routed R(s);
@@ -43,7 +61,10 @@ Verdict eval_c03(const Scene &s) {
         if (c.type == 2) for (auto &p : seen) { Box b = bbox(p); p = rectPoly(b.x0, b.y0, b.x1, b.y1); }
         bool bends = false;
         for (auto &p : s.shapes) if (segEntersConvex(c.a, c.b, p, 1e-9)) bends = true;
-        if (!clearPathExists(seen, c.a, c.b, buf + 0.5)) { v.cls("no-clear-path(unjudged)"); continue; }
+        P ca = c.a, cb = c.b; bool sideA = false, sideB = false;
+        if (c.type == 2 && (!stepOut(seen, buf, c.a, ca, sideA) || !stepOut(seen, buf, c.b, cb, sideB))) { v.cls("no-clear-path(unjudged)"); continue; }
+        if (!clearPathExists(seen, ca, cb, buf + 0.5)) { v.cls("no-clear-path(unjudged)"); continue; }
+        if (sideA || sideB) v.cls("endpoint-on-routing-box-side");
         if (bends) v.nontrivial = true;
         for (int which = 0; which < 2 && v.ok; which++) {
             const std::vector<P> &r = which ? R.raw[i] : R.disp[i];
@@ -272,6 +293,32 @@ Scene gen_c03() {
     genConns(s, span, buf + 1, orth ? 2 : 1, 6, false);
     return s;
 }
+// Orthogonal scenes in which end points lie exactly on a side of a shape's routing box (distance to the shape = buffer distance).
+Scene gen_c03_side() {
+    Scene s;
+    s.cfg.flags = 2;
+    int span = irange(20, 80);
+    genShapes(s, tier_thorough() ? 12 : 8, span, irange(1, 2), 0, false);
+    double buf = pick(std::vector<double>{0, 1, 2, 0.5});
+    s.cfg.param[Avoid::shapeBufferDistance] = buf;
+    s.cfg.param[Avoid::segmentPenalty] = pick(std::vector<double>{10, 50, 1});
+    s.cfg.param[Avoid::idealNudgingDistance] = pick(std::vector<double>{4, 1, 0.5});
+    genConns(s, span, buf + 1, 2, 1, false);     // one connector per router (other connectors' end points interfere: F14)
+    for (auto &c : s.conns) for (P *e : {coin(1, 2) ? &c.a : &c.b}) {     // one end on a side, the other in free space
+        if (s.shapes.empty()) continue;
+        size_t k = irange(0, (int)s.shapes.size() - 1);
+        Box b = bbox(s.shapes[k]); double x0 = b.x0 - buf, x1 = b.x1 + buf, y0 = b.y0 - buf, y1 = b.y1 + buf;
+        if (x1 - x0 < 2 || y1 - y0 < 2) continue;
+        int side = irange(0, 3);
+        P p;
+        if (side < 2) { p.x = side ? x1 : x0; p.y = std::floor(y0) + irange(1, (int)(y1 - y0) - 1); if (!(p.y > y0 && p.y < y1)) continue; }
+        else { p.y = side == 3 ? y1 : y0; p.x = std::floor(x0) + irange(1, (int)(x1 - x0) - 1); if (!(p.x > x0 && p.x < x1)) continue; }
+        bool ok = true;
+        for (size_t j = 0; j < s.shapes.size(); j++) if (j != k) { Box o = bbox(s.shapes[j]); if (p.x > o.x0 - buf - 1 && p.x < o.x1 + buf + 1 && p.y > o.y0 - buf - 1 && p.y < o.y1 + buf + 1) ok = false; }
+        if (ok) *e = p;
+    }
+    return s;
+}
 Scene gen_c04() {
     Scene s;
     s.cfg.flags = 1;
@@ -304,6 +351,7 @@ int main(int argc, char **argv) {
                          [e](Reader &r) { return e(Scene::get(r)); }, nullptr});
     };
     add("C03.valid", 1.0, gen_c03, eval_c03);
+    add("C03.side", 0.5, gen_c03_side, eval_c03);
     add("C04.shortest", 1.0, gen_c04, eval_c04);
     props.push_back({"C05.bends", 0, nullptr, replay_bends, exhaustive_bends});
     add("C05.orth", 1.0, gen_c05, eval_c05);
